@@ -560,7 +560,10 @@ def gen_cases(rng, tier):
     if widen:
         target_cases(cs_)
     # ---- boundary stream: counts
-    for n in [1, 2, 3, 252, 253, 254] + ([65535, 65536] if big and not widen else []):
+    # counts of 65535/65536 inputs are left out even in the thorough tier: the extracted reader is quadratic in the count
+    # (8000 inputs = 7 min, 65535 would exceed the driver's time limit); the 2-byte boundary is covered for LENGTHS
+    # (scripts and witness items of 65534/65535/65536 bytes) and by the CompactSize theorems + source tie themselves
+    for n in [1, 2, 3, 252, 253, 254] + ([1000, 3000] if big and not widen else []):
         tx_case('tx_count_in', 'plain', simple(ins=[(P, k & 0xffffffff, b'', 0xffffffff, []) for k in range(n)]), cs_)
         tx_case('tx_count_out', 'plain', simple(outs=[(k, b'\x51') for k in range(n)]), cs_)
         tx_case('tx_count_wit', 'plain', simple(ins=[(P, 0, b'', 0xffffffff, [b'\x51'] * n)]), cs_)
